@@ -5,40 +5,67 @@ CFG = {'lean_modules': ['ObiVerif.Props.C08'],
  'thorough_seeds': 8,
  'rule': 'cases = read pairs cut from one fragment with every overlap geometry (standard, B inside A, A inside B, identical starts, identical ends, overlap '
          '1..3, abutting / no overlap, B first), lengths 1..300 (reads <= 40 bases: op pe, the model runs the whole DP from the per-cell scores of the real '
-         'scoring function; longer: op pl, the model replays the real path), qualities 0..93 in six profiles, substitutions / indels / IUPAC symbols '
-         'injected, random / two-letter / homopolymer / tandem-repeat fragments, fast and exact x relative and absolute 4-mer score x delta 0,1,5 x 5 gap '
-         'x 3 scale settings x min-overlap / min-identity thresholds, one alignment arena and one shift map shared by all cases of a run; op cons = '
-         'BuildQualityConsensus on random consuming paths (either sign at both ends, adjacent opposite runs, (0,0) pairs); hand-picked corpus with the '
-         'witnesses of every repaired defect; non-trivial = distinct well-formed case (not bad-op)',
- 'technique': 'Lean 4 theorems on a model parametric in the score function and the gap penalty (floats never modelled) + differential correspondence of the '
-              'model with the real PEAlign / BuildQualityConsensus / AssemblePESequences / FastShiftFourMer + independent O(n^2) dynamic program, naive '
-              '4-mer vote and column-wise consensus oracle run on the real code',
+         'scoring function — exact mode through the verbatim loop nests over a flat arena holding stale values; longer: op pl, the model replays the real '
+         'path), qualities 0..93 in seven profiles (one made of the extremes 0, 1, 40, 93), substitutions / indels / IUPAC symbols injected, random / '
+         'two-letter / homopolymer / tandem-repeat fragments, fast and exact x relative and absolute 4-mer score x delta 0,1,5 x 5 gap x 3 scale settings x '
+         'min-overlap / min-identity thresholds, one alignment arena and one shift map shared by all cases of a run (small and large pairs interleaved: the '
+         'arena shrinks and grows); op fm = one fill (left or right) + backtracking on the shared arena, score, path and BOTH complete flat matrices compared '
+         'with the verbatim model and with the same fill on a fresh arena; op cons = BuildQualityConsensus on random consuming paths (either sign at both '
+         'ends, adjacent opposite runs, (0,0) pairs); hand-picked corpus with the witnesses of every repaired defect, every pair of extreme qualities on '
+         'overlaps of 18 / 1 / 0 / full and very unequal lengths, all-N and all-IUPAC reads, every min-overlap value around the real overlap x every '
+         'min-identity value around 1; non-trivial = distinct well-formed case (not bad-op)',
+ 'technique': 'Lean 4 theorems on a model parametric in the score function and the gap penalty (floats never modelled), with a verbatim layer (flat '
+              'column-major matrices, _SetMatrices/_GetMatrix/_GetMatrixFrom index arithmetic, the two loop nests) proved equal to the recurrence layer for '
+              'every arena content + differential correspondence of the model with the real PEAlign / fills (complete matrices) / BuildQualityConsensus / '
+              'AssemblePESequences / FastShiftFourMer + independent O(n^2) dynamic program, naive 4-mer vote, column-wise consensus oracle and metamorphic '
+              'option oracle (min-overlap, min-identity, withStats, fast annotations) run on the real code',
  'level_text': 'For every score function s(i,j), every gap penalty and all non-empty reads, on the Lean model: the fill matrices satisfy the three-way '
                'recurrence with the free end gaps of the scheme; _Backtracking on them terminates inside the matrix and its run-length path consumes both '
-               'reads exactly (backtrack_consumes); the reported score is the score recomputed along that path (fill_score_is_path); no consuming path '
-               'scores higher under the scheme (fill_optimal, full); exact mode returns the better scheme with its own score and path, >= every consuming '
-               'path under either scheme (pealign_exact); fast mode with the repaired path extension consumes both reads for every vote result in range, '
-               'every delta (fast_path_consumes) and the unrepaired rule is refuted on a concrete input; the consensus has one base and one quality per '
-               'path column, the higher-quality base wins, IUPAC union on ties, gap columns keep the base (consensus_columns, '
-               'consensus_higher_quality_wins, consensus_gap_column decided over the regenerated tables); ali_length + seq_a_single + seq_b_single = '
-               'length and mode <-> thresholds (stats_consistent). The model is tied to /repo by running both on the same lines every run (exported '
-               'integer scores as data).',
- 'level_note': 'Not proved in Lean, checked by the oracles on the real code only: (1) in fast mode the reported score equals the score recomputed along '
-               'the extended path under the global scheme; (2) the result of the 4-mer vote is in range (hypothesis VoteInRange of fast_path_consumes) '
-               'and independent of the map iteration order; (3) error-free reassembly (checked whenever the true path is the unique optimum / the true '
-               'offset is the strict maximiser of the vote); (4) the content of the gapped rows of _BuildAlignment (only their lengths are proved). '
-               'left/right fills are modelled as one recurrence instantiated with per-row / per-column indel costs (first row and column as running '
-               'sums) rather than as two loop nests. Go int is modelled by Int: valid while |scores| stay far from 2^63 (true once '
-               'C08-logaddexp-nan is applied; the oracle checks the table entries used). The quality written on a quality tie between different '
-               'bases uses the stale qM/qm of an earlier column (transcribed as is; the property does not constrain that value).',
- 'trusted_base': LEAN_TB + ['extract/ (go/ast literal extraction of _FourBitsBaseCode, _FourBitsBaseDecode, __single_base_code__)',
-                            'pkg/obialign/verif_hooks_c08.go (exports _PairingScorePeAlign, the two tables, the observed gap penalty)',
-                            'independent DP / naive vote / column oracle in harness/c08.go',
-                            'float comparisons of ratios of integers < 2^20 are exact (4-mer relative score, min identity)'],
- 'modelled': 'pkg/obialign pairedendalign.go (_FillMatrixPeLeftAlign, _FillMatrixPeRightAlign, PEAlign exact and fast), backtracking.go (_Backtracking), '
-             'alignment.go (_BuildAlignment, BuildQualityConsensus without the mismatch statistics map), pkg/obikmer encodefourmer.go (Encode4mer, '
-             'Index4mer, FastShiftFourMer), pkg/obitools/obipairing pairing.go (AssemblePESequences, JoinPairedSequence; score_norm and '
-             'paring_fast_score, rounded floats, are not printed)',
+               'reads exactly (backtrack_consumes); the reported score is the score recomputed along that path (fill_score_is_path); no consuming path scores '
+               'higher under the scheme (fill_optimal, full); the two fills transcribed verbatim as loop nests over the flat arena matrices, followed by '
+               '_Backtracking on the flat path matrix, return exactly the recurrence-level result for EVERY previous content of the arena, also when the left '
+               'fill runs over the matrices of the right fill as in exact mode (fills_verbatim_refine, fillLeftV_optimal, fillRightV_optimal: no index out of '
+               'range, every cell rewritten before it is read); exact mode returns the better scheme with its own score and path, >= every consuming path '
+               'under either scheme (pealign_exact); fast mode: the 4-mer vote returns the entry with the best score and the smallest shift among ties '
+               '(vote_is_best), the same for every iteration order of the Go map (vote_order_independent: no determinism defect, ties are resolved by the '
+               'shift, not by the map order) and always in range (vote_in_range, discharging the former hypothesis VoteInRange); with the repaired path '
+               'extension the path consumes both reads and the reported score equals the score recomputed along the EXTENDED path under the scheme of the '
+               'whole reads named by isLeft — left when the vote shift is positive, right otherwise — in the DP branch and in the identical-overlap branch '
+               '(fast_path_consumes, fast_score_is_path, pealign_fast end to end); the unrepaired extension rule is refuted on a concrete input; '
+               '_BuildAlignment: row A / row B are the reads seen through the positions of the path columns, restricted to their non-gap columns (by the path '
+               'mask) they give back the reads, gaps exactly where the path says, every base once and in order (rows_content), for base rows and quality rows; '
+               'the consensus has one base and one quality per path column and column k is consBase of the real (base, quality) of A and of B at the positions '
+               'the path shows there (consensus_columns_real), the higher-quality base wins, IUPAC union on ties, gap columns keep the base '
+               '(consensus_higher_quality_wins, consensus_gap_column decided over the regenerated tables); ali_length + seq_a_single + seq_b_single = length '
+               'and mode <-> thresholds (stats_consistent); error-free reassembly: if the true path is the unique optimum up to alignment columns of the '
+               'scheme kept, the returned path has its columns and the consensus is the consensus along the true path (errorfree_reassembly_columns; the '
+               'former uniqueness on run-length lists could never hold), and the claim is refuted for repeats (errorfree_reassembly_repeat_false). The model '
+               'is tied to /repo by running both on the same lines every run (exported integer scores as data).',
+ 'level_note': "Still partial: (1) error-free reassembly — proved only under the hypothesis 'the true path is the unique optimum up to columns of the scheme "
+               "that is kept'; no closed condition in terms of the signs of the score table and the overlap length exists (errorfree_reassembly_repeat_false: "
+               'a positive-on-matches table and an overlap of 2 of 4 bases of a homopolymer is beaten by the full diagonal); that the consensus along the true '
+               'path spells the fragment is reduced to consensus_columns_real + consensus_gap_column but the final equality with the fragment is checked by '
+               'the oracle (reassembly.exact / reassembly.fast whenever the true path is the unique optimum / the true offset is the strict maximiser of the '
+               'vote); (2) fast mode: the local fills run by peAlignFastFrom are the recurrence-level fillLeft/fillRight (equal to the verbatim loop nests by '
+               'fills_verbatim_refine, but the fast driver path does not execute the verbatim layer; op fm does on arbitrary sub-reads); (3) _Backtracking '
+               "writes the path from the end of the arena buffer: modelled by prepending to a list; Index4mer's 256 position lists are modelled by the double "
+               'loop over both 4-mer lists (same multiset of (refpos, pos) pairs; only the per-shift counts matter, proved order-independent). Go int is '
+               'modelled by Int: valid while |scores| stay far from 2^63 (true once C08-logaddexp-nan is applied; the oracle checks the table entries used). '
+               'The quality written on a quality tie between different bases uses the stale qM/qm of an earlier column (transcribed as is; the property does '
+               'not constrain that value). Float equality of the relative 4-mer scores is modelled by exact cross-multiplication (ratios of integers < 2^20: '
+               'exact in float64). Observation, not a property violation: in join mode AssemblePESequences drops the paring_fast_* annotations (they are '
+               'written on the consensus record that join mode discards).',
+ 'trusted_base': LEAN_TB + [
+                  'extract/ (go/ast literal extraction of _FourBitsBaseCode, _FourBitsBaseDecode, __single_base_code__)',
+                  'pkg/obialign/verif_hooks_c08.go (exports _PairingScorePeAlign, the two tables, the observed gap penalty), pkg/obialign/verif_hooks_c08b.go '
+                  '(one fill + backtracking, copies of the two flat arena matrices)',
+                  'independent DP / naive vote / column oracle / option oracle in harness/c08.go',
+                  'float comparisons of ratios of integers < 2^20 are exact (4-mer relative score, min identity)'],
+ 'modelled': 'pkg/obialign pairedendalign.go (_SetMatrices, _GetMatrix, _GetMatrixFrom, _FillMatrixPeLeftAlign, _FillMatrixPeRightAlign verbatim over the flat '
+             'arena matrices in Model/PEFillV.lean and as one recurrence in Model/PEAlign.lean, PEAlign exact and fast), backtracking.go (_Backtracking), '
+             'alignment.go (_BuildAlignment, BuildQualityConsensus without the mismatch statistics map), pkg/obikmer encodefourmer.go (Encode4mer, Index4mer, '
+             'FastShiftFourMer), pkg/obitools/obipairing pairing.go (AssemblePESequences, JoinPairedSequence; score_norm and paring_fast_score, rounded '
+             'floats, are not printed by the model; the paring_fast_* annotations are checked by the oracle)',
  'assumptions': ['reads are non-empty and lower-case (obiseq.SetSequence lower-cases), qualities 0..93 with len(qual) = len(seq)',
                  'the score tables are finite (|entry| < 2^40): int sums do not wrap',
-                 'the 4-mer vote result satisfies VoteInRange (checked on every fast case through the correspondence: the model would report a panic)']}
+                 'cap() of an arena slice is modelled by the size of the array handed to the fill (prepare)']}
